@@ -94,6 +94,12 @@ func (w *World) resolveContract(fr *Frame, c *ssa.CallCommon, st *State) (*Contr
 			}
 			return nil, fn
 		}
+		// a callspec of the function under contract, keyed by the method's name, refines the call site
+		if fr.contract != nil {
+			if cs := fr.contract.CallSpecs[c.Method.Name()]; cs != nil {
+				return cs, nil
+			}
+		}
 		for _, k := range ifaceMethodKeys(c) {
 			if ct := w.specs.Contracts[ifaceKey(k)]; ct != nil {
 				return ct, nil
@@ -466,6 +472,16 @@ func (w *World) inlineCall(fr *Frame, st *State, fn *ssa.Function, args []*Val, 
 // assume the postcondition.
 func (w *World) applyContract(fr *Frame, st *State, ct *Contract, names []string, args []*Val, sig *types.Signature, extra map[string]*Val, pkg *types.Package) *Val {
 	vars := map[string]*Val{}
+	if ct.Kind == "callspec" {
+		// written inside the caller's contract: the caller's parameters are in scope
+		top := fr
+		for top.parent != nil {
+			top = top.parent
+		}
+		for k, v := range top.params {
+			vars[k] = v
+		}
+	}
 	for k, v := range extra {
 		vars[k] = v
 	}
@@ -572,9 +588,10 @@ func (w *World) assumeResultWF(st *State, v *Val) {
 
 // modTarget is one entry of a modifies clause resolved against a state.
 type modTarget struct {
-	key   string
-	whole bool
-	idx   Term // the index (object reference / array index) that may change
+	key    string
+	whole  bool
+	idx    Term            // the index (object reference / array index) that may change
+	member func(Term) Term // or: a predicate on the index
 }
 
 func (w *World) modTargets(env *CEnv, ct *Contract) []modTarget {
@@ -636,6 +653,22 @@ func (w *World) modTarget(env *CEnv, e *CExpr) []modTarget {
 				mt := x.Typ.Underlying().(*types.Map)
 				dk, vk := w.mapKeys(w.sortOf(mt.Key()), w.sortOf(mt.Elem()))
 				return []modTarget{{key: dk, idx: x.T}, {key: vk, idx: x.T}, {key: "MapLen", idx: x.T}}
+			case "each":
+				// each(s, f): field f of every element of the slice s (pointers to structs)
+				x := w.eval(env, e.Args[1])
+				et := x.Typ.Underlying().(*types.Slice).Elem()
+				p := et.Underlying().(*types.Pointer)
+				stt := p.Elem().Underlying().(*types.Struct)
+				fname := e.Args[2].Name
+				fi := fieldIndex(stt, fname)
+				if fi < 0 {
+					unsupported("each(): no field %s", fname)
+				}
+				ek := w.elemsKey(w.sortOf(et))
+				arr := sel(w.hget(env.state(), ek), sarr(x.T))
+				return []modTarget{{key: w.fieldKey(p.Elem(), fi), member: func(q Term) Term {
+					return Term{fmt.Sprintf("(exists ((ei! Int)) (and (<= 0 ei!) (< ei! %s) (= (select %s (+ %s ei!)) %s)))", slen(x.T).S, arr.S, soff(x.T).S, q.S), SBool}
+				}}}
 			case "whole":
 				// whole(T.f): the field of every object
 				inner := w.modTarget(env, e.Args[1])
@@ -704,7 +737,11 @@ func (w *World) havocForContract(st, pre *State, ct *Contract, vars map[string]*
 		q := Term{"fr!", idxSort}
 		var except []Term
 		for _, t := range ts {
-			except = append(except, eq(q, t.idx))
+			if t.member != nil {
+				except = append(except, t.member(q))
+			} else {
+				except = append(except, eq(q, t.idx))
+			}
 		}
 		guard := not(or(except...))
 		if idxSort == SInt && !strings.HasPrefix(k, "G!") {
